@@ -94,6 +94,9 @@ def make_inst(bdef, spec, port=None):
         kw["port"] = True
     if spec.get("role") is not None:
         kw["role"] = role_of(bdef, spec["role"])
+        if spec.get("rfresh") and getattr(kw["role"], "name", None) is not None:
+            # an equal-named but DISTINCT Role object (e.g. from a second RoleSet of the same names): roles compare by name
+            kw["role"] = h.Role(name=kw["role"].name)
     bi = bdef(**kw)
     for _ in range(spec.get("fc", 0)):
         bi = h.flipped(bi)
